@@ -136,7 +136,10 @@ type EArrayFrom struct { // Array.from(ITER, fn).length ; Fn == "" : no mapping 
 }
 type ESetSize struct{ Iter Expr } // new Set(ITER).size
 type EMapSize struct{ Iter Expr } // new Map(ITER).size  (items are not entry objects: TypeError + IteratorClose)
-type EIt struct{ Site, N, Flags int }
+type EIt struct {
+	Site, N, Flags int
+	Wrap        bool // mkIb: an iterable whose [Symbol.iterator]() method is a probe of its own (site+3) that may throw or return a non-object
+}
 type EArr struct{ Elems []Expr }
 type EGenCall struct {
 	Fn   string
@@ -185,6 +188,8 @@ type Func struct {
 	Params []string
 	Locals []string
 	Body   []Stmt
+	// Capture: a closure captures every local and parameter (they move from stack slots to a scope object)
+	Capture bool
 }
 
 type Program struct {
@@ -217,7 +222,7 @@ function mkIt(s, n, fl) {
     if (d === 1) throw 1000 + s + 1;
     if (d === 2) return 5;
     if (d === 3) return { value: 3, done: false };
-    return { value: v, done: true };
+    return { value: N(v) + 100, done: true };
   };
   if (fl & 2) it.throw = function(v) {
     var d = P(s + 2, v) % 4;
@@ -227,6 +232,16 @@ function mkIt(s, n, fl) {
     throw v;
   };
   return it;
+}
+function mkIb(s, n, fl) {
+  var o = {};
+  o[Symbol.iterator] = function() {
+    var d = P(s + 3) % 4;
+    if (d === 1) throw 1000 + s + 3;
+    if (d === 2) return 5;
+    return mkIt(s, n, fl);
+  };
+  return o;
 }
 `
 
@@ -260,6 +275,9 @@ func printProgram(pr *Program) string {
 		p.line("var _d = 0, _o = { p: 0 };")
 		if len(f.Locals) > 0 {
 			p.line("var %s = 0;", strings.Join(f.Locals, " = 0, "))
+		}
+		if f.Capture {
+			p.line("(function() { return [%s]; });", strings.Join(append(append([]string{}, f.Params...), f.Locals...), ", "))
 		}
 		if f.Name == "main" {
 			for _, gi := range pr.GInit {
@@ -510,6 +528,9 @@ func exprJS(e Expr) string {
 		sb.WriteString("`.length")
 		return sb.String()
 	case *EIt:
+		if e.Wrap {
+			return fmt.Sprintf("mkIb(%d, %d, %d)", e.Site, e.N, e.Flags)
+		}
 		return fmt.Sprintf("mkIt(%d, %d, %d)", e.Site, e.N, e.Flags)
 	case *EArr:
 		return "[" + exprsJS(e.Elems) + "]"
